@@ -45,7 +45,7 @@ OUTVALS = [None, 0.0, -1.0, 999.0]
 # generators of coordinate arrays (rows = j = Y direction, columns = i = X direction)
 # ------------------------------------------------------------------------------------------------
 def polar_grid(nr, nc, rng, res_km=None):
-    dx = res_km if res_km else math.exp(rng.uniform(math.log(0.8), math.log(20.0)))
+    dx = res_km if res_km else math.exp(rng.uniform(math.log(0.1), math.log(20.0)))
     dist = rng.uniform(1100.0, 3800.0)  # km from the pole to the lower edge: latitude ~ 55..80
     yp = nr + dist / dx
     xp = rng.uniform(-0.5, 1.5) * nc + rng.uniform(-1, 1) * 0.3 * dist / dx
@@ -59,7 +59,7 @@ def polar_grid(nr, nc, rng, res_km=None):
 
 
 def rotated_grid(nr, nc, rng, res_km=None):
-    dx = res_km if res_km else math.exp(rng.uniform(math.log(0.8), math.log(20.0)))
+    dx = res_km if res_km else math.exp(rng.uniform(math.log(0.1), math.log(20.0)))
     res = dx / 111.19
     plon, plat = rng.uniform(-30, 40), rng.uniform(25.0, 60.0)  # tilt of the rotated equator
     r0, c0 = rng.uniform(-8.0, 8.0), rng.uniform(-10.0, 10.0)
